@@ -374,6 +374,9 @@ def check_class(name, x, prm, NFFT, sampling, sbf, tag, route='fresh'):
 
 
 def replay(rep):
+    if rep.get('replay', {}).get('form') == 'routes':
+        from props import _estimators as E_
+        return E_.replay_routes(rep['replay'])
     if rep['replay'].get('protocol') == 'values_only':
         from props import _purity
         return _purity.replay_protocol(rep['replay'])
@@ -535,6 +538,9 @@ def run(ctx):
     def lap(name):
         timing[name] = round(time.time() - t0[0], 1); t0[0] = time.time()
     ctx.check_theorems('Properties/C15.v')
+    # the estimate an object holds does not depend on the history that gave it its data and settings (every route of _estimators.via)
+    from props import _estimators as E_
+    E_.class_route_stream(ctx, ['parma', 'pma', 'pyule', 'pburg', 'pcovar', 'pmodcovar'], 'routes')
     # the IR program of ma, regenerated from arma.py with aryule / CORRELATION / LEVINSON embedded, vs Model.MaEst.ma_est: exact, zero tolerance
     loopir_tie(ctx, ['ma'])
     check_pipelines(ctx)
